@@ -562,6 +562,22 @@ mod real {
             "calm" => Some(CRDTDSTConfig::calm(seed)),
             "moderate" => Some(CRDTDSTConfig::moderate(seed)),
             "chaos" => Some(CRDTDSTConfig::chaos(seed)),
+            // corpus: no message ever arrives (drop probability 1.0, three replicas): the replicas do not
+            // converge and the harness reports it — the violation texts become observable
+            "corpus-drop1" => {
+                let mut c = CRDTDSTConfig::new(seed, 3);
+                c.message_drop_prob = 1.0;
+                Some(c)
+            }
+            // GENERATED: replica counts 1 … 8 and the legal extremes of the drop probability (0: every
+            // sync merges; 1: no message ever arrives, the replicas never converge and the harness
+            // REPORTS it — the violation texts become reachable)
+            "gen" => {
+                let mut r = Rng::new(seed ^ 0xC4D);
+                let mut c = CRDTDSTConfig::new(seed, 1 + r.below(8) as usize);
+                c.message_drop_prob = *r.pick(&[0.0, 0.3, 0.9, 1.0, 1.0]);
+                Some(c)
+            }
             _ => None,
         }
     }
@@ -574,7 +590,7 @@ mod real {
     }
 
     /// ORSet violation text with the two sets canonicalised
-    fn canon_violation(s: &str) -> String {
+    pub fn canon_violation(s: &str) -> String {
         if let Some((head, rest)) = s.split_once(" has different elements: ") {
             if let Some((a, b)) = rest.split_once(" vs expected ") {
                 return format!("{} has different elements: {} vs expected {}", head, canon_set(a), canon_set(b));
@@ -686,12 +702,21 @@ mod real {
             "chaos" => Some(DSTConfig::chaos(seed)),
             // more nodes, shorter recoveries: several nodes are down at once far more often
             "chaos9" => Some(DSTConfig::chaos(seed).with_nodes(9)),
+            // comparison at equality (`current_time >= max_time_ms`): the time limit is COMPUTED from the
+            // state — the virtual time a probe run of the same seed shows after 40 steps, minus one / exactly / plus one
+            "limit-below" | "limit-at" | "limit-above" => {
+                let mut probe = DSTSimulation::with_config(DSTConfig::chaos(seed));
+                probe.run_operations(40);
+                let t = probe.current_time().as_millis();
+                let lim = match preset { "limit-below" => t.saturating_sub(1), "limit-at" => t, _ => t + 1 };
+                Some(DSTConfig::chaos(seed).with_max_time(lim))
+            }
             // a GENERATED configuration (beyond the presets), a function of the seed
             "gen" => {
                 let mut r = Rng::new(seed ^ 0xD57);
                 let mut fc = FaultConfig::new();
                 fc.global_multiplier = *r.pick(&[0.1, 1.0, 3.0]);
-                fc.set(faults::process::CRASH, *r.pick(&[0.0, 0.001, 0.01, 0.05, 0.2, 0.5]));
+                fc.set(faults::process::CRASH, *r.pick(&[0.0, 0.001, 0.01, 0.05, 0.2, 0.5, 1.0]));
                 let min_rec = *r.pick(&[0u64, 1, 100, 3000]);
                 let mut c = DSTConfig::new(seed).with_nodes(1 + r.below(12) as usize).with_faults(fc)
                     .with_max_time(*r.pick(&[500u64, 5_000, 60_000])).with_clock_skew(r.chance(1, 2));
@@ -1801,6 +1826,23 @@ fn divergence_class(family: &str, preset: &str, a: Option<&String>, b: Option<&S
     ""
 }
 
+/// signature of a difference between the verbatim report lines of two runs, by CAUSE:
+/// an accessor listing a hash container (`order-of:<name> …`), a violation text that differs only in
+/// the order in which a `HashSet` was rendered, or — anything else — the bare signature
+fn raw_diff_signature(family: &str, scope: &str, a: Option<&String>, b: Option<&String>) -> (String, String) {
+    if let Some(acc) = a.and_then(|l| l.strip_prefix("order-of:")).and_then(|l| l.split(' ').next()) {
+        return (format!("C20:accessor-in-map-order:{}:{}", family, acc),
+            format!("the public accessor {} returns the simulation's final state in an order that differs between two runs (it iterates a HashMap)", acc));
+    }
+    if let (Some(a), Some(b)) = (a, b) {
+        if a.starts_with("violation ") && b.starts_with("violation ") && a != b && real::canon_violation(a) == real::canon_violation(b) {
+            return (format!("C20:violation-text-in-hashset-order:{}", family),
+                "the violation text the harness reports renders two HashSets with {:?}: same sets, different element order in different runs".to_string());
+        }
+    }
+    (format!("C20:report-differs-{}:{}", scope, family), "the text the harness reports (summary / violation strings / statistics) differs between two runs".to_string())
+}
+
 struct Family {
     name: &'static str,
     presets: &'static [&'static str],
@@ -1811,11 +1853,11 @@ struct Family {
 }
 
 const FAMILIES: &[Family] = &[
-    Family { name: "crdt-gcounter", presets: &["calm", "moderate", "chaos", "default"], ops: 200, modelled: true, quick_presets: 4 },
-    Family { name: "crdt-pncounter", presets: &["calm", "moderate", "chaos", "default"], ops: 200, modelled: true, quick_presets: 4 },
-    Family { name: "crdt-orset", presets: &["calm", "moderate", "chaos", "default"], ops: 200, modelled: true, quick_presets: 4 },
-    Family { name: "crdt-vclock", presets: &["calm", "moderate", "chaos", "default"], ops: 200, modelled: true, quick_presets: 4 },
-    Family { name: "dst", presets: &["chaos", "chaos9", "default", "calm", "gen"], ops: 400, modelled: true, quick_presets: 5 },
+    Family { name: "crdt-gcounter", presets: &["calm", "moderate", "chaos", "default", "gen"], ops: 200, modelled: true, quick_presets: 5 },
+    Family { name: "crdt-pncounter", presets: &["calm", "moderate", "chaos", "default", "gen"], ops: 200, modelled: true, quick_presets: 5 },
+    Family { name: "crdt-orset", presets: &["corpus-drop1", "calm", "moderate", "chaos", "default", "gen"], ops: 200, modelled: true, quick_presets: 6 },
+    Family { name: "crdt-vclock", presets: &["calm", "moderate", "chaos", "default", "gen"], ops: 200, modelled: true, quick_presets: 5 },
+    Family { name: "dst", presets: &["chaos", "chaos9", "default", "calm", "gen", "limit-below", "limit-at", "limit-above"], ops: 400, modelled: true, quick_presets: 8 },
     Family { name: "sim-executor", presets: &["script"], ops: 0, modelled: false, quick_presets: 1 },
     Family { name: "redis-dst", presets: &["chaos", "moderate", "uniform", "zipf-small", "steps", "calm"], ops: 150, modelled: true, quick_presets: 5 },
     Family { name: "executor", presets: &["default", "chaos", "gen", "calm", "string_heavy"], ops: 300, modelled: false, quick_presets: 3 },
@@ -1852,6 +1894,13 @@ fn part_b(a: &Args, out: &mut Out) {
     let k_children = if thorough { 5 } else { 3 };
     let seeds: Vec<u64> = if thorough { (a.seed..a.seed + 20).collect() } else { (a.seed..a.seed + 5).collect() };
     let only = std::env::var("C20_ONLY").ok();
+    if let Some(o) = &only {
+        // a development aid; a run that skipped families must never count as a passing check
+        out.violation("C20:harness:partial-run", &format!("C20_ONLY={} is set: only some harness families were run", o), json!({"C20_ONLY": o}));
+    }
+    // seeds at the edges of u64 as well (one per family and preset, rotating)
+    const EDGE_SEEDS: [u64; 6] = [0, u64::MAX, 1 << 32, (1 << 63) - 1, 1 << 63, u64::MAX - 1];
+    let mut edge_i = 0usize;
     let mut explored: BTreeMap<String, serde_json::Value> = BTreeMap::new();
     for fam in FAMILIES {
         if let Some(o) = &only {
@@ -1865,7 +1914,13 @@ fn part_b(a: &Args, out: &mut Out) {
         for preset in presets {
             // the process-level comparison costs K+3 runs: fewer seeds for the slow families in quick
             let fam_seeds: &[u64] = if !thorough && !fam.modelled && matches!(fam.name, "streaming" | "compaction" | "multi-node" | "batch") { &seeds[..3] } else { &seeds };
-            for &seed in fam_seeds {
+            let mut fam_seeds: Vec<u64> = fam_seeds.to_vec();
+            edge_i += 1;
+            fam_seeds.push(EDGE_SEEDS[edge_i % EDGE_SEEDS.len()]);
+            if thorough {
+                fam_seeds.push(EDGE_SEEDS[(edge_i + 3) % EDGE_SEEDS.len()]);
+            }
+            for &seed in &fam_seeds {
                 let ops = if thorough { fam.ops * 2 } else { fam.ops };
                 let replay = json!({"harness": fam.name, "preset": preset, "seed": seed, "ops": ops,
                     "how": format!("rvharness --c20-child {} {} {} {}   (run it several times and diff)", fam.name, preset, seed, ops)});
@@ -1899,15 +1954,9 @@ fn part_b(a: &Args, out: &mut Out) {
                     if t.raw != traces[0].raw {
                         let i = first_diff(&traces[0].raw, &t.raw);
                         all_same = false;
-                        let accessor = traces[0].raw.get(i).and_then(|l| l.strip_prefix("order-of:")).and_then(|l| l.split(' ').next()).map(|x| x.to_string());
-                        match accessor {
-                            Some(acc) => out.violation(&format!("C20:accessor-in-map-order:{}:{}", fam.name, acc),
-                                &format!("{} {} seed {}: the public accessor {} returns the simulation's final state in an order that differs between two fresh processes (it iterates a HashMap)", fam.name, preset, seed, acc),
-                                json!({"replay": replay, "process_1": traces[0].raw.get(i), "process_n": t.raw.get(i)})),
-                            None => out.violation(&format!("C20:report-differs-across-processes:{}", fam.name),
-                                &format!("{} {} seed {}: the text the harness reports (summary / violation strings / float statistics) differs between two fresh processes", fam.name, preset, seed),
-                                json!({"replay": replay, "process_1": traces[0].raw.get(i), "process_n": t.raw.get(i)})),
-                        }
+                        let (sig, what) = raw_diff_signature(fam.name, "across-processes", traces[0].raw.get(i), t.raw.get(i));
+                        out.violation(&sig, &format!("{} {} seed {} (two fresh processes): {}", fam.name, preset, seed, what),
+                            json!({"replay": replay, "process_1": traces[0].raw.get(i), "process_n": t.raw.get(i)}));
                         break;
                     }
                 }
@@ -1922,6 +1971,19 @@ fn part_b(a: &Args, out: &mut Out) {
                     }
                 }
                 let p2 = harness_trace(fam.name, preset, seed, ops).expect("known harness");
+                if p1.lines == p2.lines && p1.raw != p2.raw {
+                    let i = first_diff(&p1.raw, &p2.raw);
+                    all_same = false;
+                    let (sig, what) = raw_diff_signature(fam.name, "in-process", p1.raw.get(i), p2.raw.get(i));
+                    out.violation(&sig, &format!("{} {} seed {} (two runs in one process): {}", fam.name, preset, seed, what),
+                        json!({"replay": replay, "first": p1.raw.get(i), "second": p2.raw.get(i)}));
+                }
+                // a harness that panics on one of its OWN presets would agree with itself in every process
+                let generated = preset.starts_with("gen") || matches!(fam.name, "dst-api" | "connection-gen" | "multi-node-gen" | "scenario-timing");
+                if !generated && traces[0].lines.first().map(|l| l.starts_with("panic: ")).unwrap_or(false) && !(EDGE_SEEDS.contains(&seed) && seed > (1 << 62)) {
+                    all_same = false;
+                    out.violation(&format!("C20:harness-panicked:{}", fam.name), &format!("{} {} seed {}: the harness panics on a built-in preset: {}", fam.name, preset, seed, traces[0].lines[0]), json!({"replay": replay}));
+                }
                 if p1.lines != p2.lines {
                     let i = first_diff(&p1.lines, &p2.lines);
                     all_same = false;
@@ -2011,6 +2073,9 @@ fn part_b(a: &Args, out: &mut Out) {
                     }
                 }
             }
+        }
+        if runs == 0 && only.is_none() {
+            out.violation(&format!("C20:harness:empty-cell:{}", fam.name), &format!("family {} produced no run at all", fam.name), json!({"family": fam.name}));
         }
         explored.insert(fam.name.to_string(), json!({"modelled": fam.modelled, "runs": runs, "processes_per_run": k_children + 1, "all_agree": agree}));
     }
